@@ -236,8 +236,8 @@ Section Step.
     | RBlock a =>
         if is_bad (rl_bad s) a then s
         else mkRL (rl_vpn s) (rl_cache s) (rl_dns s) (rl_bad s ++ [a]) (rl_addrs s) (rl_relays s) true
-    | RUnblock => mkRL (rl_vpn s) (rl_cache s) (rl_dns s) [] (rl_addrs s) (rl_relays s) (rl_dirty s)
-    | RRefresh vpn => mkRL vpn (rl_cache s) (rl_dns s) [] (rl_addrs s) (rl_relays s) (rl_dirty s)
+    | RUnblock => mkRL (rl_vpn s) (rl_cache s) (rl_dns s) [] (rl_addrs s) (rl_relays s) true
+    | RRefresh vpn => mkRL vpn (rl_cache s) (rl_dns s) [] (rl_addrs s) (rl_relays s) true
     | RDns l => mkRL (rl_vpn s) (rl_cache s) l (rl_bad s) (rl_addrs s) (rl_relays s) true
     | RClearDns => mkRL (rl_vpn s) (rl_cache s) [] (rl_bad s) (rl_addrs s) (rl_relays s) true
     | RResetOwner ow =>
